@@ -11,20 +11,20 @@ def st(variant, monitor, quick, thorough, **kw):
 
 PLANS = {
     "C03": {"stages": [
-        st("chk", "hist", 16000, 200000, death_prop="C03", floor={"process_calls": 50000}),
-        st("asan", "hist", 6000, 60000, death_prop="C03", reseed=True),
-        st("miri", "hist", 48, 480, profile="tiny", death_prop="C03", reseed=True, timeout={"quick": 900, "thorough": 7200}),
+        st("chk", "hist", 100000, 2000000, death_prop="C03", floor={"process_calls": 50000}),
+        st("asan", "hist", 30000, 400000, death_prop="C03", reseed=True),
+        st("miri", "hist", 96, 960, profile="tiny", death_prop="C03", reseed=True, timeout={"quick": 900, "thorough": 7200}),
         st("miri-sse", "hist", 32, 320, profile="tiny", death_prop="C03", reseed=True, tiers=["thorough"], timeout={"thorough": 7200}),
         st("miri-avx", "hist", 32, 320, profile="tiny", death_prop="C03", reseed=True, tiers=["thorough"], timeout={"thorough": 7200},
            env={"RVMON_NO_FFT": "1"}),
         st("vg", "hist", 64, 1600, profile="small", death_prop="C03", reseed=True, tiers=["thorough"], timeout={"thorough": 7200}),
     ]},
     "C04": {"stages": [
-        st("chk", "hist", 16000, 160000, death_prop="C03", floor={"process_calls": 50000}),
-        st("rel", "hist", 16000, 160000, death_prop="C03", reseed=True),
+        st("chk", "hist", 100000, 1500000, death_prop="C03", floor={"process_calls": 50000}),
+        st("rel", "hist", 100000, 1500000, death_prop="C03", reseed=True),
     ]},
     "C09": {"stages": [
-        st("rel", "hist", 12000, 200000, death_prop="C03", floor={"process_calls": 40000}),
+        st("rel", "hist", 150000, 3000000, death_prop="C03", floor={"process_calls": 40000}),
     ]},
 }
 
@@ -47,4 +47,33 @@ ASSUMPTIONS = {
     ],
     "C03": ["red-zone sanitizers can miss far/intra-object overflows; the precondition-check build and Miri do not have that blind spot but Miri only sees small configurations"],
     "C09": ["only the calling thread is observed; the allocating convenience wrappers (process, process_partial*) are outside the property"],
+}
+
+# ------------------------------------------------------------------------------------------
+# MANIFEST metadata (bin/mkmanifest.py renders MANIFEST.json from this)
+
+META = {
+    "C03": dict(
+        technique="runtime monitoring: seeded hostile call histories under std unsafe-precondition/overflow checks, AddressSanitizer, Miri (3 CPU-feature configs) and valgrind memcheck; per-call Ok/abort oracle",
+        text="Exploration. Every valid call history drawn by the hostile generators (ratio steps/ramps over the whole permitted interval, "
+             "chunk-size changes, partial/flush calls, resets, masks, 1-frame chunks) is executed against the real code in four instrumented "
+             "builds; a panic, abort, sanitizer/Miri report, hang or Err on a valid call refutes the property. Held = no such event on the "
+             "histories observed (counts in the evidence); not a proof.",
+        note="Trusts the sanitizers' detection model (red zones: ASan/memcheck; full interpreter: Miri on tiny configurations), the harness' "
+             "reference model of which calls are valid, and x86_64 only (NEON unreachable).",
+        design="5/C03"),
+    "C04": dict(
+        technique="runtime monitoring: getter reads bracketing every call + NaN-sentinel output buffers + NaN-poisoned input slack, over seeded hostile histories",
+        text="Exploration. Around every processing call of every generated history the monitor reads the four frame-count getters, supplies "
+             "exactly input_frames_next() frames followed by poison, pre-fills the output with sentinels, and compares returned counts, "
+             "written high-water mark and getter relations; buffers from *_buffer_allocate taken at construction are reused for the whole life.",
+        note="Trusts the harness' notion of a valid history; NaN sentinels/poison can only be confused with data if the resampler itself produced that exact NaN payload.",
+        design="5/C04"),
+    "C09": dict(
+        technique="runtime monitoring: counting #[global_allocator] armed on the calling thread around each real-time call, over seeded hostile histories",
+        text="Exploration. A counting global allocator is armed immediately before and disarmed immediately after every process_into_buffer, "
+             "setter, reset and getter call of every generated history (release build, default features, log off); any alloc/realloc/dealloc "
+             "event on the calling thread refutes the property.",
+        note="Observes the calling thread only; caller-owned buffers are allocated outside the armed window.",
+        design="5/C09"),
 }
